@@ -4,6 +4,7 @@ import ast
 from ..astutil import effective, method_call
 from ..cfg import cfg_of, fact_key, norm, walk_own
 from ..consteval import Scope, class_const, fold_in
+from ..flow import unchanged_param
 from ..mutate import B, M
 from ..symexec import paths_of, paths_of_block
 from ..symexpr import canon
@@ -309,6 +310,14 @@ def check(ctx):
     ctx.inst('R5', svs, 'velocity-passed-unchanged', len(pc) == 1 and [norm(a) for a in pc[0].args] == svs.params[1:5] and not rebound,
              'the velocity a primitive computed (distance / time) reaches the set-point thread unchanged: clamping or rescaling here breaks velocity x duration = displacement; '
              'call %s, parameters re-bound: %s' % ([norm(c) for c in pc], rebound or 'none'))
+
+    slm = M_.method('start_linear_motion')
+    gslm = cfg_of(slm)
+    sv_ = gslm.find(lambda q: method_call(q, '_set_vel_setpoint'))
+    okv = len(sv_) == 1 and [norm(a) for a in sv_[0][1].args] == slm.params[1:5] and all(unchanged_param(gslm, sv_[0][0], p_) for p_ in slm.params[1:5]) and \
+        ('n', sv_[0][0].id) in (gslm.dom().get(('n', gslm.exit.id)) or ())
+    ctx.inst('R5', slm, 'velocity-passed-unchanged', okv, 'start_linear_motion hands the velocities it was given to the set-point thread as they are (the blocking primitives '
+             'compute the duration from the same numbers: a limit applied here shortens every fast move)')
 
     # ---- R8: the set-points the primitives are streamed through reach the firmware as commanded (shared with C08.R1) ----
     from .c08 import sender_layout_for
